@@ -9,7 +9,9 @@ outputs, and (2) executed by Term.exec / TermScroll.srun from start rows 0, midd
 (forces scrolling) and checked against the final-state predicate (cursor on the row below
 the box at column 0, visible, attributes default, protocol clean, scrolled exactly as much
 as needed, nothing outside the box touched, every cell of the box showing what the padded
-last frame alone shows) and the documented size rule (raised <-> rule violated, nothing
+last frame alone shows, and — kitty style — the image placements left on the screen, with
+kitty's delete commands interpreted (lib/TermPlace.v), being exactly those of the last
+frame: no stale placement of an earlier frame) and the documented size rule (raised <-> rule violated, nothing
 written)."""
 from __future__ import annotations
 
@@ -97,15 +99,23 @@ def gen_old(rng):
     elif r < 0.16:
         c["cells"] = None  # dynamic size
     if style == "kitty":
-        c["kitty_version"] = rng.choice([[0, 25, 0], [0, 20, 1], [0, 30, 0], [0, 25, 1]])
-        c["args"]["method"] = rng.choice(["lines", "whole"])
+        c["kitty_version"] = rng.choice([[0, 25, 0], [0, 20, 1], [0, 24, 9], [0, 30, 0], [0, 25, 1], [1, 0, 0]])
+        if rng.random() < 0.8:
+            c["args"]["method"] = rng.choice(["lines", "whole", "LINES", "Whole"])
+        if rng.random() < 0.35:
+            c["args"]["mix"] = rng.random() < 0.8
+        if rng.random() < 0.55:  # a z-index of the caller's: default, small, negative, the extremes
+            c["args"]["z_index"] = rng.choice([0, 1, 5, -1, -7, 2**31 - 1, -(2**31) + 1, rng.randint(-1000, 1000)])
         if rng.random() < 0.3:
-            c["args"]["mix"] = True
+            c["args"]["compress"] = rng.choice([0, 1, 4, 9])
     elif style == "iterm2":
         c["term"] = rng.choice(["wezterm", "wezterm", "konsole", "iterm2"])
-        c["args"]["method"] = rng.choice(["lines", "whole"])
+        if rng.random() < 0.8:
+            c["args"]["method"] = rng.choice(["lines", "whole", "LINES", "Whole"])
+        if rng.random() < 0.35:
+            c["args"]["mix"] = rng.random() < 0.8
         if rng.random() < 0.3:
-            c["args"]["mix"] = True
+            c["args"]["compress"] = rng.choice([0, 1, 4, 9])
     return c
 
 
@@ -147,6 +157,21 @@ def corpus():
                "pad": [4, 3], "ha": 1, "va": 0, "repeat": 2, "cached": True, "tty": True, "args": {"method": "whole"}})
     cs.append({"api": "old", "style": "kitty", "kitty_version": [0, 30, 0], "term_size": [10, 8], "img": blk, "cells": [2, 2],
                "pad": [2, 2], "ha": 1, "va": 0, "repeat": 1, "tty": True, "args": {"method": "lines"}})
+    # the caller's z_index must not reach the frames of a kitty animation (the clearing of
+    # kitty <= 0.25.0 deletes the animation z-index only); versions on both sides of 0.25.0
+    for ver in ([0, 25, 0], [0, 20, 1], [0, 25, 1], [0, 35, 2]):
+        for args in ({"z_index": 5}, {"z_index": -1, "mix": True}, {"z_index": 2**31 - 1, "method": "whole"},
+                     {"z_index": -(2**31) + 1, "method": "lines", "compress": 0}):
+            cs.append({"api": "old", "style": "kitty", "kitty_version": ver, "term_size": [10, 8], "img": blk,
+                       "cells": [2, 2], "pad": [4, 3], "ha": 1, "va": 1, "repeat": 2, "cached": ver[1] != 25,
+                       "tty": True, "args": dict(args)})
+    cs.append({"api": "old", "style": "kitty", "kitty_version": [0, 25, 0], "term_size": [10, 8],
+               "img": {"n_frames": 1, "size": [4, 4], "seed": 3}, "cells": [2, 2], "pad": [4, 3], "ha": 1, "va": 1,
+               "tty": True, "args": {"z_index": 5}})
+    for term in ("wezterm", "konsole", "iterm2"):
+        cs.append({"api": "old", "style": "iterm2", "term": term, "term_size": [10, 8], "img": blk, "cells": [2, 2],
+                   "pad": [4, 3], "ha": 1, "va": 1, "repeat": 2, "tty": True,
+                   "args": {"method": "whole", "mix": term != "wezterm", "compress": 9}})
     one = {"n_frames": 1, "size": [4, 4], "seed": 2}
     cs.append({"api": "old", "style": "block", "term_size": [10, 8], "img": one, "cells": [4, 2], "pad": [6, 4],
                "ha": 0, "va": 2, "tty": True, "args": {}})
@@ -220,7 +245,7 @@ def case_term(c, r):
         f"d_kind := {kind}", f"d_tw := {tw}", f"d_th := {th}", f"d_cs := {b(c.get('check_size', True))}",
         f"d_scroll := {b(scroll)}", f"d_anim := {b(anim)}", f"d_hide := {b(hide)}", f"d_dyn := {b(dyn)}",
         f"d_fill := {fill}", f"d_w := {w}", f"d_h := {h}", f"d_clear := {lexer.coq_toks(clear)}",
-        f"d_oldk := {b(oldk)}", f"d_wez := {b(wez)}",
+        f"d_oldk := {b(oldk)}", f"d_wez := {b(wez)}", f"d_kitty := {b(c.get('style') == 'kitty')}",
         "d_frames := " + core.coq_list(frames, lexer.coq_toks),
         f"d_obs := {lexer.coq_toks(toks(r['out']))}", f"d_raised := {b(r['raised'] == 1)}",
         "d_rows := " + core.coq_list(rows)]) + " |}")
@@ -258,8 +283,12 @@ def failure_class(c, r):
     h = (r.get("size") or [0, 0])[1]
     th = c["term_size"][1]
     lines = max(H if H > 0 else max(th + H, 1), h)
-    return ["old", "anim" if anim else "still", "one-line-box" if lines == 1 else "multi-line-box",
-            "wezterm-pre-erase" + ("-vpad" if lines > h else "") if (is_wez(c) and anim) else "no-pre-erase"]
+    cls = ["old", "anim" if anim else "still", "one-line-box" if lines == 1 else "multi-line-box",
+           "wezterm-pre-erase" + ("-vpad" if lines > h else "") if (is_wez(c) and anim) else "no-pre-erase"]
+    if c["style"] == "kitty":
+        cls.append("kitty<=0.25.0" if tuple(c.get("kitty_version", (0, 30, 0))) <= (0, 25, 0) else "kitty>0.25.0")
+        cls.append("z_index given" if c.get("args", {}).get("z_index", 0) != 0 else "default z_index")
+    return cls
 
 
 def run(ctx):
@@ -277,7 +306,7 @@ def run(ctx):
     t_impl = time.time() - t_start
     terms, owner = [], []
     failures, mismatches, errors = [], [], []
-    hist = {"api": {}, "kind": {}, "style": {}, "tty": {}, "frames": {}, "loops": {}, "raised": 0, "accepted": 0, "cache": {}}
+    hist = {"api": {}, "kind": {}, "style": {}, "tty": {}, "frames": {}, "loops": {}, "raised": 0, "accepted": 0, "cache": {}, "style_args": {}, "kitty": {}}
     distinct = set()
     for i, (c, r) in enumerate(zip(cases, impl)):
         hist["api"][c["api"]] = hist["api"].get(c["api"], 0) + 1
@@ -303,6 +332,12 @@ def run(ctx):
         hist["loops"][lp] = hist["loops"].get(lp, 0) + 1
         ck = str(c.get("cache", c.get("cached", "default")))
         hist["cache"][ck] = hist["cache"].get(ck, 0) + 1
+        for k, v in c.get("args", {}).items():
+            key = f"{k}={'non-default' if k == 'z_index' and v != 0 else v}"
+            hist["style_args"][key] = hist["style_args"].get(key, 0) + 1
+        if c.get("style") == "kitty":
+            kk = ("<=0.25.0" if tuple(c.get("kitty_version", (0, 30, 0))) <= (0, 25, 0) else ">0.25.0") + (" anim" if anim else " still")
+            hist["kitty"][kk] = hist["kitty"].get(kk, 0) + 1
         hist["raised"] += r["raised"] == 1
         hist["accepted"] += r["raised"] == 0
         if r["raised"] == 0 and anim and len(frames) >= 2:
@@ -321,7 +356,7 @@ def run(ctx):
                 failures.append({
                     "signature": core.sig(["final-state", failure_class(c, r)]),
                     "what": ("the output of draw() violates the property ((box, raised, rule holds, (first token difference with the "
-                             f"model, lengths), per start row the clauses [row, col, sgr, visible, clean, scroll, inside-box, content]) = {why}) — {describe(c)}"),
+                             f"model, lengths), per start row the clauses [row, col, sgr, visible, clean, scroll, inside-box, content, no-stale-placements]) = {why}) — {describe(c)}"),
                     "replay": {"case": c, "output": r.get("out", "")[:3000]}})
             else:
                 mismatches.append({"case": c, "code": code, "explain": explain(c, r) if len(mismatches) < 3 else ""})
@@ -331,11 +366,13 @@ def run(ctx):
         "distinct_nontrivial": len(distinct),
         "rule": "corpus (frame counts 1..4 x loops 1..3 x cache on/off x tty/non-tty with an exact bottom-heavy padding; one-line render, "
                 "full-screen box, relative padding with empty fill; rejected width / height / allow_scroll on an animation; old API: one-line "
-                "box, multi-line box, wezterm pre-erase with and without vertical padding, kitty <= 0.25 clearing, still images, rejected "
+                "box, multi-line box, wezterm pre-erase with and without vertical padding, kitty <= 0.25 clearing, kitty animations with a caller-given z_index "
+                "on 4 versions x 4 argument sets, iterm2 whole/mix/compress on 3 terminals, still images, rejected "
                 "pad_width / pad_height / forced sizes) + random: new API renderables with text / SGR block / erase-and-skip frames 1..5 x 1..4 "
                 "cells, 1..4 frames, loops 1..3, cache True/False/int, ExactPadding and AlignedPadding (absolute, zero, relative, exceeding), "
                 "fills ' ' '*' '', check_size / allow_scroll / hide_cursor / animate flags, clearing override; old API Block / Kitty (LINES, "
-                "WHOLE, versions around 0.25.0, mix) / ITerm2 (LINES, WHOLE, wezterm / konsole / iterm2, mix) images from synthetic GIFs of 1..4 "
+                "WHOLE, versions on both sides of 0.25.0, style arguments z_index (default, small, negative, both extremes), mix, compress) / "
+                "ITerm2 (LINES, WHOLE, wezterm / konsole / iterm2, mix, compress) images from synthetic GIFs of 1..4 "
                 "frames, repeat 1..3, cached True/False/int, pad sizes around the image size / zero / relative / exceeding, 9 alignments in both "
                 "spellings, dynamic and forced sizes; terminals 7..14 x 5..10; every accepted case that fits the screen is executed from start rows "
                 "0, H/2 and H-1. Non-trivial: an accepted animation of >= 2 drawn frames; distinct by (padding, size, style, terminal, frames, tty, args).",
